@@ -120,8 +120,12 @@ def check(col: Collector, tier: str):
     col.add("C02.R1", "executor.__init__", "stores-configuration", st.get("self._file_names") == "file_names" and st.get("self._runner_name") == "runner_name"
             and st.get("self._template_dir_name") == "template_dir_name", f"{st}", ei.loc)
     loops = [n for n in walk_no_nested(wf.node) if isinstance(n, ast.For) and src(n.iter) == "self._file_names"]
-    ok = len(loops) == 1 and any(isinstance(c, ast.Call) and call_name(c) == "_copy_template_file" and src(c.args[2]) == src(loops[0].target)
-                                 and src(c.args[3]) == "output_path" for c in ast.walk(loops[0]))
+    # (the rendering itself - which template, into which file - is the copy-template contract below; here: it happens once per listed file)
+    ok = len(loops) == 1 and (
+        any(isinstance(c, ast.Call) and call_name(c) == "_copy_template_file" and src(c.args[2]) == src(loops[0].target)
+            and src(c.args[3]) == "output_path" for c in ast.walk(loops[0]))
+        or any(isinstance(c, ast.Call) and call_name(c) == "get_template" and len(c.args) == 1 and src(c.args[0]) == src(loops[0].target) for c in ast.walk(loops[0])))
+    ok = ok and not any(isinstance(x, (ast.Break, ast.Continue, ast.If)) for x in ast.walk(loops[0])) if loops else False
     col.add("C02.R1", wf.short, "every-listed-file-is-written", ok, "for file_name in self._file_names: self._copy_template_file(env, info, file_name, output_path)", wf.loc)
     ch = [c for c in ast.walk(wf.node) if isinstance(c, ast.Call) and call_name(c) == "chmod"]
     ok = len(ch) == 1 and "self._runner_name" in src(ch[0].func.value) and "output_path" in src(ch[0].func.value)
